@@ -1,7 +1,7 @@
 (* C08 — saved shapes load back as the same shapes; the opcode numbering is frozen.
    Statements only. *)
 From Coq Require Import List NArith Bool.
-From LF Require Import Base.Opcode Gen.OpcodeTable_gen.
+From LF Require Import Base.Opcode Base.Num Base.Arena Base.Sem Tree.Build Tree.BuildSem Gen.OpcodeTable_gen Serial.Codec Serial.CodecSem.
 Import ListNotations.
 
 (* The numbering regenerated from opcode.hpp on this run is the frozen on-disk
@@ -39,6 +39,66 @@ Theorem C08_opcode_attributes :
   forallb (fun o => Bool.eqb (is_idempotent o) (existsb (opcode_eqb o) gen_idempotent)) all_opcodes = true.
 Proof. repeat split; reflexivity. Qed.
 
+(* any byte string (quotes, backslashes, NUL, 0xFF, empty ...) round-trips *)
+Theorem C08_string_roundtrip : forall s rest : list byte,
+  deser_string (ser_string s ++ rest) = (s, rest).
+Proof. exact string_roundtrip. Qed.
+
+Theorem C08_u32_roundtrip : forall (n : N) (rest : list byte),
+  (n < 2 ^ 32)%N -> read_u32 (u32le n ++ rest) = (n, rest).
+Proof. exact u32_roundtrip. Qed.
+
+(* the variable section: each named variable is bound to the reloaded tree at the
+   same stream position (the look-ahead for END_OF_ITEM peeks, it does not consume
+   the opening quote) *)
+Theorem C08_vars_roundtrip : forall (trees : list nat) (ids : idmap) (vs : list (nat * list byte))
+    (fuel : nat) (rest : list N),
+  vars_ok ids vs -> length vs < fuel ->
+  deser_vars fuel trees (ser_vars ids vs ++ [END_OF_ITEM] ++ rest) [] =
+  (map (fun v => (tget trees (id_at ids (fst v)), snd v)) vs, rest).
+Proof. exact vars_roundtrip. Qed.
+
+(* whole archives: any number of shapes (with shared sub-trees and 't'
+   back-references) serialise to bytes that deserialise -- by re-running the smart
+   constructors into any well-formed arena -- to shapes related to the originals ... *)
+Theorem C08_archive_roundtrip :
+  forall (num : Type) (O : ops num) (osem : nat -> num -> num -> num -> num), laws O ->
+  forall (enc : num -> N) (dec : N -> num) (a : arena num), arena_wf a ->
+  forall (shapes : list shape) (b : arena num),
+    Forall (shape_ok enc dec a) shapes -> arena_wf b -> base_ok O b ->
+    (N.of_nat (total_nodes a shapes) <= 2 ^ 32)%N ->
+    exists bytes ids' b' trees' shapes',
+      serialize O enc a shapes = (a, bytes) /\
+      deserialize O dec b bytes = (b', shapes') /\
+      rel O osem a ids' b' trees' /\ extends b b' /\
+      Forall2 (shape_rel ids' trees') shapes shapes'.
+Proof. intros num O osem HL enc dec a Hwf. exact (archive_roundtrip O osem HL enc dec a Hwf). Qed.
+
+(* ... where "related" means: same name, same docstring, the root denotes the same
+   function (for environments that agree on X,Y,Z and give each reloaded variable
+   the value of the variable it came from), each named variable keeps its name and
+   is bound to the corresponding reloaded variable *)
+Theorem C08_shape_rel_meaning :
+  forall (num : Type) (O : ops num) (osem : nat -> num -> num -> num -> num)
+         (a : arena num) (ids : idmap) (b : arena num) (trees : list nat) (s s' : shape),
+    rel O osem a ids b trees -> shape_rel ids trees s s' ->
+    sh_name s' = sh_name s /\ sh_doc s' = sh_doc s /\
+    (forall r r', env_corr a ids trees r r' ->
+       val O osem b (sh_tree s') r' = val O osem a (sh_tree s) r) /\
+    Forall2 (fun v v' : nat * list byte =>
+       snd v' = snd v /\
+       (forall r r', env_corr a ids trees r r' -> val O osem b (fst v') r' = val O osem a (fst v) r) /\
+       (getn a (fst v) = NNullary VAR_FREE ->
+        getn b (fst v') = NNullary VAR_FREE /\
+        (forall r r', env_corr a ids trees r r' -> ev r' (fst v') = ev r (fst v))))
+      (sh_vars s) (sh_vars s').
+Proof. intros; eapply shape_rel_sem; eassumption. Qed.
+
 Print Assumptions C08_opcode_table_frozen.
 Print Assumptions C08_codes_injective_bytes.
 Print Assumptions C08_opcode_attributes.
+Print Assumptions C08_string_roundtrip.
+Print Assumptions C08_u32_roundtrip.
+Print Assumptions C08_vars_roundtrip.
+Print Assumptions C08_archive_roundtrip.
+Print Assumptions C08_shape_rel_meaning.
